@@ -320,14 +320,15 @@ def setDbApiKey (cfg : Cfg) (s : State) (name : String) (key : Option String) (f
       let r := storeApiKey s name (some k)
       if r.2 then (r.1, .ok (.keySet name key.isNone)) else (r.1, .error .internal)
 
-/-- `remove_db_api_key`: answers `false` WITHOUT persisting when the in-memory map has no binding. -/
+/-- `remove_db_api_key` (since commit 39a09a9): ALWAYS `store_api_key(name, None)` — also when the
+in-memory map holds no binding — and answers whether one existed. (A read-only primary therefore
+makes even a no-op removal fail with 500.) -/
 def removeDbApiKey (s : State) (name : String) : State × Except ApiError RootResult :=
   if !knownDb s name then (s, .error (.dbNotFound name))
-  else match lookup s.bound name with
-    | none => (s, .ok (.removed false))
-    | some _ =>
-      let r := storeApiKey s name none
-      if r.2 then (r.1, .ok (.removed true)) else (r.1, .error .internal)
+  else
+    let existed := (lookup s.bound name).isSome
+    let r := storeApiKey s name none
+    if r.2 then (r.1, .ok (.removed existed)) else (r.1, .error .internal)
 
 /-- `AppState::info` / `scoped_info`. -/
 def scopedInfo (cfg : Cfg) (s : State) (p : Principal) (dbName : String) : RootResult :=
